@@ -3,9 +3,9 @@ WAVLIB = ['pack.c', 'util.c', 'string.c', 'wavheader.c']
 CHECK = dict(
     level='model_checking', distinct_global=True,
     parts=[dict(name='c13', src=['harness/c13_wavheader.c'], lib=WAVLIB, workers=1,
-                deadline=dict(quick=120, thorough=900)),
+                deadline=dict(quick=300, thorough=1800)),
            dict(name='c13d', src=['harness/c13_wavheader.c'], lib=WAVLIB, workers=16, cflags=['-DC13_DECODE_FIRST'],
-                deadline=dict(quick=120, thorough=900))],
+                deadline=dict(quick=300, thorough=1800))],
     rule='part c13 (states/transitions/traces): explicit-state BFS with vx_bfs to a fixpoint over the state graph of the two '
          'mutators of the real wavheader.c (linked as a separate object, its statics part of every snapshot) - fill(0x00|0xff|0x55) '
          'as first step, init(rate in {1,8000,44100,192000,65535,65536,768000,2^24+1}, channels in {1,2,6,8,127,128,255,256,2048,'
